@@ -353,6 +353,11 @@ def compressed_request_streams():
         h = max(1, len(blob) // 2)
         yield ("creq", nm, "chunked2"), (pre + b"Content-Encoding: " + enc + b"\r\nTransfer-Encoding: chunked\r\n\r\n%x\r\n" % h + blob[:h]
                                          + b"\r\n%x\r\n" % (len(blob) - h) + blob[h:] + b"\r\n0\r\n\r\n" + NEXT)
+        # a chunk that decodes to nothing: the checksum/trailer of the compressed stream alone, and its header alone
+        yield ("creq", nm, "chunked-tail4"), (pre + b"Content-Encoding: " + enc + b"\r\nTransfer-Encoding: chunked\r\n\r\n%x\r\n" % (len(blob) - 4)
+                                              + blob[:-4] + b"\r\n4\r\n" + blob[-4:] + b"\r\n0\r\n\r\n" + NEXT)
+        yield ("creq", nm, "chunked-head2"), (pre + b"Content-Encoding: " + enc + b"\r\nTransfer-Encoding: chunked\r\n\r\n2\r\n"
+                                              + blob[:2] + b"\r\n%x\r\n" % (len(blob) - 2) + blob[2:] + b"\r\n0\r\n\r\n" + NEXT)
     yield ("creq", "rawdeflate", "truncated"), pre + b"Content-Encoding: deflate\r\nContent-Length: %d\r\n\r\n" % (len(raw) - 3) + raw[:-3] + NEXT
     yield ("creq", "gzip", "garbage"), pre + b"Content-Encoding: gzip\r\nContent-Length: 6\r\n\r\nnotgz!" + NEXT
 
@@ -446,6 +451,9 @@ HOSTILE_TARGETS = [
     b"?", b"#", b"a", b"a:b", b"[::1", b"::", b":", b"h:99999999", b"%", b"/%", b"/%zz", b"/\xff\xfe", b"/?%", b"/#%",
     b"http://h/%", b"ws://h/", b"file:///etc", b"mailto:a@b", b"urn:x", b"http://xn--\xff/", b"http://a..b/", b"http://.a/",
     b"http://" + b"a" * 300 + b"/", b"http://a." * 40 + b"b/", b"http://1.2.3.4.5/", b"http://0x7f.1/", b"http://[1.2.3.4]/",
+    # userinfo in front of an empty or bracketed host
+    b"http://[::1]@/", b"http://[]@/", b"http://[::1]@h/", b"http://u@[::1]/", b"http://u:p@/", b"http://u@:80/", b"http://@[::1]/",
+    b"http://[::1]@:80/", b"//[::1]@/", b"http://[@/", b"http://]@/", b"http://u@[/", b"http://[::1]:80@/",
 ]
 
 
@@ -453,6 +461,21 @@ def hostile_target_streams():
     for t in HOSTILE_TARGETS:
         for method in (b"GET", b"CONNECT", b"OPTIONS"):
             yield (method, t), method + b" " + t + b" HTTP/1.1\r\nHost: a\r\n\r\n" + NEXT
+
+
+HOSTILE_HEADERS = [b"Expect", b"Host", b"Content-Type", b"Connection", b"Upgrade", b"Content-Encoding", b"Accept-Encoding", b"Cookie",
+                   b"If-Modified-Since", b"Range", b"Forwarded", b"X-Forwarded-For", b"Sec-WebSocket-Key", b"Authorization", b"Keep-Alive"]
+HOSTILE_VALUES = [b"\xff", b"100-continue\xff", b"\xed\xa0\x80", b"a:b", b"[", b"\x80=\x81; \xfe", b"bytes=\xff-", b"=?utf-8?b?\xff?="]
+
+
+def hostile_header_streams():
+    """Requests the parser accepts whose interpreted header fields carry bytes that are not UTF-8 (they reach the
+    application as lone surrogates) or are otherwise not what the field's syntax allows."""
+    for h in HOSTILE_HEADERS:
+        for v in HOSTILE_VALUES:
+            host = b"" if h == b"Host" else b"Host: a\r\n"
+            yield (h, v, "get"), b"GET / HTTP/1.1\r\n" + host + h + b": " + v + b"\r\n\r\n" + NEXT
+            yield (h, v, "post"), b"POST / HTTP/1.1\r\n" + host + h + b": " + v + b"\r\nContent-Length: 3\r\n\r\nabc" + NEXT
 
 
 def hostile_number_streams():
@@ -497,3 +520,11 @@ def unterminated_streams(mls: int, mfs: int):
     yield "resp-fieldvalue", ok + b"X-A: " + b"v" * big, step
     yield "resp-chunkext", ok + b"Transfer-Encoding: chunked\r\n\r\n5;" + b"e" * big, step
     yield "resp-trailer-value", ok + b"Transfer-Encoding: chunked\r\n\r\n0\r\nX-T: " + b"v" * big, step
+    # a line that is short but followed by carriage returns only (the lax response parser drops CRs from a line)
+    yield "resp-reason-cr", b"HTTP/1.1 200 OK" + b"\r" * big, step
+    yield "resp-cr-only", b"\r" * big, step
+    yield "resp-fieldvalue-cr", ok + b"X-A: v" + b"\r" * big, step
+    yield "resp-chunksize-cr", ok + b"Transfer-Encoding: chunked\r\n\r\n5" + b"\r" * big, step
+    yield "resp-trailer-cr", ok + b"Transfer-Encoding: chunked\r\n\r\n0\r\nX-T: v" + b"\r" * big, step
+    yield "reqline-cr", b"GET / HTTP/1.1" + b"\r" * big, step
+    yield "chunksize-cr", C + b"5" + b"\r" * big, step
